@@ -10,6 +10,8 @@ import (
 	"testing"
 
 	enc "github.com/named-data/ndnd/std/encoding"
+	"github.com/named-data/ndnd/std/engine/basic"
+	"github.com/named-data/ndnd/std/object"
 	"verif/harness/common"
 )
 
@@ -130,6 +132,59 @@ func variant(r *common.Rand, g *common.Gen, a enc.Name) enc.Name {
 	}
 }
 
+// uriTwin returns a name that is NOT Equal to a but as close to it as a string-keyed table could
+// confuse: one component replaced by (a) another encoding of the same number (1-, 2-, 4-, 8-, 9-byte,
+// non-shortest), (b) a generic component whose value spells the URI form of the typed component, or the
+// typed component a generic value spells, (c) the same value under a neighbouring type.
+func uriTwin(r *common.Rand, g *common.Gen, a enc.Name) enc.Name {
+	b := a.Clone()
+	if len(b) == 0 {
+		return append(b, enc.Component{Typ: 8, Val: []byte{}})
+	}
+	i := r.Intn(len(b))
+	c := b[i]
+	switch r.Intn(4) {
+	case 0:
+		g.Stat("twin-number-width")
+		v := uint64(0)
+		for _, x := range c.Val {
+			v = v<<8 | uint64(x)
+		}
+		w := common.Pick(r, []int{0, 1, 2, 3, 4, 8, 9})
+		nv := make([]byte, w)
+		for k := w - 1; k >= 0; k-- {
+			nv[k] = byte(v)
+			v >>= 8
+		}
+		if c.Typ < 0x32 || c.Typ > 0x3a || c.Typ%2 != 0 {
+			b[i].Typ = enc.TLNum(common.Pick(r, []uint64{0x32, 0x34, 0x36, 0x38, 0x3a}))
+		}
+		b[i].Val = nv
+	case 1:
+		g.Stat("twin-generic-spells-typed")
+		if c.Typ == 8 {
+			// make the typed component the generic value spells, when it spells one
+			if t, err := enc.ComponentFromStr(string(c.Val)); err == nil && len(c.Val) < 200 {
+				b[i] = t
+			} else {
+				b[i] = enc.Component{Typ: 8, Val: []byte("32=" + string(c.Val))}
+			}
+		} else if len(c.Val) < 200 {
+			b[i] = enc.Component{Typ: 8, Val: []byte(c.String())}
+		}
+	case 2:
+		g.Stat("twin-neighbour-type")
+		b[i].Typ = c.Typ ^ 1
+	default:
+		g.Stat("twin-escaped-form")
+		// the percent-escaped text of the value as a value
+		if len(c.Val) < 200 {
+			b[i].Val = []byte(enc.Component{Typ: 8, Val: c.Val}.String())
+		}
+	}
+	return b
+}
+
 var uriSeeds = []string{
 	"", "/", "//", "///", "a", "/a", "/a/", "/a//", "//a", "/a/b", "=abc", "/=abc", "=", "/=", "==", "a==b", "a=b=c",
 	"8=abc", "9=abc", "0=a", "65535=a", "65536=a", "18446744073709551615=a", "18446744073709551616=a", "-1=a", "+1=a", "1_0=a",
@@ -222,6 +277,21 @@ func gen(g *common.Gen) {
 			g.Op("dec %s", common.Hex(b.Bytes()))
 			if len(b) > 0 {
 				g.Op("cdec %s", common.Hex(b[0].Bytes()))
+			}
+			if a.EncodingLength() < 5000 && b.EncodingLength() < 5000 && c.EncodingLength() < 5000 {
+				// tables keyed on names must tell apart exactly the names that are not Equal
+				names := []enc.Name{a, b, c, uriTwin(r, g, a), uriTwin(r, g, b), a.Clone()}
+				for x := len(names) - 1; x > 0; x-- {
+					y := r.Intn(x + 1)
+					names[x], names[y] = names[y], names[x]
+				}
+				txt := make([]string, len(names))
+				for x, n := range names {
+					txt[x] = common.NameText(n)
+				}
+				q := common.NameText(uriTwin(r, g, variant(r, g, c)))
+				g.Op("tab trie %s %s", q, strings.Join(txt, " "))
+				g.Op("tab mem %s %s", q, strings.Join(txt, " "))
 			}
 			g.Stat("name-triples")
 		}
@@ -346,6 +416,38 @@ func exec(op string) string {
 			return "err"
 		}
 		return common.CompText(c)
+	case "tab":
+		q := common.ParseNameText(f[2])
+		names := make([]enc.Name, 0, len(f)-3)
+		for _, t := range f[3:] {
+			names = append(names, common.ParseNameText(t))
+		}
+		cls := make([]string, len(names))
+		switch f[1] {
+		case "trie":
+			t := basic.NewNameTrie[int]()
+			for i, n := range names {
+				if node := t.ExactMatch(n); node != nil && node.Value() != 0 {
+					cls[i] = strconv.Itoa(node.Value() - 1)
+				} else {
+					t.MatchAlways(n).SetValue(i + 1)
+					cls[i] = strconv.Itoa(i)
+				}
+			}
+			return fmt.Sprintf("c=%s d=%d", strings.Join(cls, ","), t.PrefixMatch(q).Depth())
+		case "mem":
+			st := object.NewMemoryStore()
+			for i, n := range names {
+				if w, _ := st.Get(n, false); w != nil {
+					cls[i] = strconv.Itoa(int(w[0]))
+				} else {
+					st.Put(n, 0, []byte{byte(i)})
+					cls[i] = strconv.Itoa(i)
+				}
+			}
+			return "c=" + strings.Join(cls, ",")
+		}
+		return "bad-op"
 	case "h":
 		return fmt.Sprintf("%x", common.ParseNameText(f[1]).Hash())
 	case "hc":
